@@ -60,6 +60,8 @@ pub struct Obs {
     pub classes: Vec<&'static str>,
     /// number of library executions this case stood for (fault enumeration: one per fault point)
     pub executions: u64,
+    /// measured quantities; the evidence reports the maximum over all cases
+    pub metrics: Vec<(&'static str, f64)>,
 }
 
 impl Obs {
@@ -67,6 +69,9 @@ impl Obs {
         if !self.classes.contains(&c) {
             self.classes.push(c);
         }
+    }
+    pub fn metric(&mut self, name: &'static str, v: f64) {
+        self.metrics.push((name, v));
     }
     pub fn class_if(&mut self, cond: bool, c: &'static str) {
         if cond {
@@ -216,6 +221,7 @@ pub struct Stats {
     pub nontrivial: HashSet<u64>,
     pub nontrivial_total: u64,
     pub classes: BTreeMap<&'static str, u64>,
+    pub metrics_max: BTreeMap<&'static str, f64>,
     pub known_hits: BTreeMap<&'static str, (u64, Option<Value>)>,
     pub first_samples: Vec<Value>,
     pub nt_samples: Vec<Value>,
@@ -230,6 +236,7 @@ impl Stats {
             nontrivial: HashSet::new(),
             nontrivial_total: 0,
             classes: BTreeMap::new(),
+            metrics_max: BTreeMap::new(),
             known_hits: BTreeMap::new(),
             first_samples: vec![],
             nt_samples: vec![],
@@ -243,6 +250,12 @@ impl Stats {
         self.nontrivial.extend(o.nontrivial);
         for (k, v) in o.classes {
             *self.classes.entry(k).or_insert(0) += v;
+        }
+        for (k, v) in o.metrics_max {
+            let e = self.metrics_max.entry(k).or_insert(v);
+            if v > *e {
+                *e = v;
+            }
         }
         for (k, (n, w)) in o.known_hits {
             let e = self.known_hits.entry(k).or_insert((0, None));
@@ -276,6 +289,12 @@ fn record<P: Prop>(stats: &mut Stats, case: &P::Case, obs: &Obs, verdict: &Verdi
     stats.executions += obs.executions.max(1);
     for c in &obs.classes {
         *stats.classes.entry(c).or_insert(0) += 1;
+    }
+    for (k, v) in &obs.metrics {
+        let e = stats.metrics_max.entry(k).or_insert(*v);
+        if *v > *e {
+            *e = *v;
+        }
     }
     if obs.nontrivial {
         stats.nontrivial_total += 1;
@@ -363,6 +382,8 @@ pub fn shrink_tree<T: Debug, VT: ValueTree<Value = T>>(
 #[derive(Debug, Clone)]
 pub struct Violation {
     pub stage: String,
+    /// ordering key: enumeration index (enumeration stages) or shard (random stages)
+    pub order: u64,
     pub shard: usize,
     pub case: Value,
     pub message: String,
@@ -512,6 +533,7 @@ fn run_random_shard<P: Prop>(
                 stats,
                 violation: Some(Violation {
                     stage: stage_name.to_string(),
+                    order: shard as u64,
                     shard,
                     case: serde_json::to_value(&min).unwrap(),
                     message: msg,
@@ -575,6 +597,7 @@ fn run_enum_shard<P: Prop>(
             // enumeration is size ordered: the first failure is already (near) minimal
             violation = Some(Violation {
                 stage: stage_name.to_string(),
+                order: idx - 1,
                 shard,
                 case: serde_json::to_value(&case).unwrap(),
                 message: msg,
@@ -657,6 +680,7 @@ pub fn run_property<P: Prop>(opts: &RunOpts) -> i32 {
         if let Verdict::Fail(msg) = verdict {
             violations.push(Violation {
                 stage: "regressions".into(),
+                order: 0,
                 shard: 0,
                 case: doc["case"].clone(),
                 message: format!("{} (regression file {})", msg, path.display()),
@@ -725,8 +749,8 @@ pub fn run_property<P: Prop>(opts: &RunOpts) -> i32 {
                     eprintln!("INCONCLUSIVE: {} (stage {})", b, stage.name);
                     return 2;
                 }
-                if stage_violation.is_none() {
-                    if let Some(v) = o.violation {
+                if let Some(v) = o.violation {
+                    if stage_violation.as_ref().map_or(true, |cur| v.order < cur.order) {
                         stage_violation = Some(v);
                     }
                 }
@@ -805,7 +829,9 @@ pub fn run_property<P: Prop>(opts: &RunOpts) -> i32 {
             "samples": samples,
             "classes": total.classes.iter().map(|(k, v)| (k.to_string(), json!(v))).collect::<serde_json::Map<_, _>>(),
             "stages": total.per_stage,
-            "exhaustive": any_enum && all_enum_exhaustive && exit == 0 && false,
+            "metrics_max": total.metrics_max.iter().map(|(k, v)| (k.to_string(), json!(v))).collect::<serde_json::Map<_, _>>(),
+            "exhaustive": false,
+            "all_enumerated_scopes_complete": any_enum && all_enum_exhaustive && exit == 0,
             "exhaustive_scopes": exhaustive_scopes,
             "known_finding_hits": total.known_hits.iter().map(|(k, (n, _))| (k.to_string(), json!(n))).collect::<serde_json::Map<_, _>>(),
             "shards": SHARDS,
